@@ -5,6 +5,7 @@ CONSTANTS
   Shapes = {}
   Types = {}
   RasDims = {}
+  ScaleSets = {}
   MaxObjs = 1000
   MaxOps = 1
   Mix = TRUE
